@@ -35,6 +35,7 @@ const (
 	clsRegexOperand  = "regex_slash_plain_operand" // a regex holding '/' that is not the right side of =~ / !~ is scanned without unescaping, printing doubles the backslash
 	clsTimeLiteral   = "time_literal_left_in_condition" // a time predicate that planning cannot split off keeps a TimeLiteral, which is printed as a string
 	clsDivAfterLit   = "division_after_non_identifier" // ('x') / b: planning drops the redundant parentheses; the scanner reads '/' after a string, boolean, duration or ::tag as a regex start
+	clsCallNameQuote = "call_name_needs_quotes" // "my fn"(a): Call.String() prints the function name without quoting (no such function can be planned)
 	clsEmptyInSet    = "empty_string_in_set"      // IN ('') : the store-side set parser drops empty strings
 )
 
